@@ -7,8 +7,9 @@ trusted; what is modelled is the mapping between values and the `interface{}` tr
 a float64 after parsing, i.e. a `Dy`; `intLit` only records whether the marshaller wrote an
 integer literal (it is ignored by the unmarshallers and only matters for the text tie).
 
-Post-fix behaviour: X4 (the VM keeps `null`/`none` list elements, as the interpreter does), X9
-(a range or a function is a JSON error, not a panic).
+Post-fix behaviour: X4 (the VM keeps `null`/`none` list elements, as the interpreter does), X24
+(both libraries write `none`/`null` object fields as `null` instead of leaving them out), X9 (a
+range or a function is a JSON error, not a panic).
 -/
 namespace Hms.Value
 
@@ -46,7 +47,7 @@ def marshalWith (floatInt : Dy → Bool) : Val → Option J
   | .null => .some .null
   | .none => .some .null
   | .some v => marshalWith floatInt v
-  | .int i => .some (.num (Dy.ofInt i.toInt) true)
+  | .int i => .some (.num (intToFlt i) true)          -- a JSON number is a float64 once parsed
   | .flt d => .some (.num d (floatInt d))
   | .bool b => .some (.bool b)
   | .str s => .some (.str s)
@@ -62,12 +63,12 @@ def marshalList (floatInt : Dy → Bool) : Vals → Option Js
     match marshalWith floatInt v, marshalList floatInt vs with
     | .some j, .some js => .some (.cons j js)
     | _, _ => .none
-/-- fields whose value marshals to `null` are left out -/
+/-- every field is written, a `none`/`null` one as `null` (X24) -/
 def marshalFields (floatInt : Dy → Bool) : Fields → Option JFields
   | .nil => .some .nil
   | .cons k v fs =>
     match marshalWith floatInt v, marshalFields floatInt fs with
-    | .some j, .some js => if j.isNull then .some js else .some (.cons k j js)
+    | .some j, .some js => .some (.cons k j js)
     | _, _ => .none
 end
 
@@ -129,12 +130,12 @@ end
 
 `JsonRepr T v`: `v` has type `T` and is JSON-representable *under that type* for the typed
 route `TypeAwareUnmarshalValue ∘ parse ∘ print ∘ MarshalValue`:
-* integers within ±2^53 (a JSON number is a float64 after parsing);
+* integers of magnitude below 2^53 (a JSON number is a float64 after parsing);
 * no `null`-typed, `any`-typed, any-object, range or function component (the typed unmarshaller
-  reads JSON `null` as `none`, and panics on an any-object type — X23, open);
+  reads JSON `null` as `none`, and panics on an any-object type — X26, open);
 * an option's payload type is not itself an option or `null` (JSON has one `null`). -/
 
-def intFitsFloat (i : BitVec 64) : Bool := decide (i.toInt.natAbs ≤ 2 ^ 53)
+def intFitsFloat (i : BitVec 64) : Bool := decide (i.toInt.natAbs < 2 ^ 53)
 
 def Ty.nullish : Ty → Bool
   | .opt _ | .null | .any => true
